@@ -71,7 +71,7 @@ func HarnessPauseHold() {
 	stopMsg := vString("stop_msg", 3)
 	vAssert(router.PauseService("svc", drainTimeout, maxPause) == nil, "pause: pause accepted")
 	vEmit(vEvent{kind: "paused"})
-	cont := vChoose("continuation", 5) // 0 wait for the timeout, 1 resume, 2 stop, 3 resume+pause, 4 redeploy then resume
+	cont := vChoose("continuation", 7) // 0 wait for the timeout, 1 resume, 2 stop, 3 resume+pause, 4 redeploy then resume, 5 pause again then resume, 6 pause again then stop
 	released := ""
 	switch cont {
 	case 1:
@@ -91,6 +91,20 @@ func HarnessPauseHold() {
 		vAssert(router.PauseService("svc", drainTimeout, maxPause) == nil, "pause: second pause accepted")
 		vEmit(vEvent{kind: "paused"})
 		released = "resume+pause"
+	case 5, 6:
+		after("repause_after")
+		vAssert(router.PauseService("svc", drainTimeout, maxPause) == nil, "pause: repeated pause accepted")
+		vEmit(vEvent{kind: "paused"})
+		after("release_after")
+		if cont == 5 {
+			vAssert(router.ResumeService("svc") == nil, "pause: resume accepted")
+			vEmit(vEvent{kind: "resumed"})
+			released = "resume"
+		} else {
+			vAssert(router.StopService("svc", drainTimeout, stopMsg) == nil, "pause: stop accepted")
+			vEmit(vEvent{kind: "stopped"})
+			released = "stop"
+		}
 	case 4:
 		lat := vDur("lat")
 		vAssume(lat < ptimeout && lat < deployTimeout)
